@@ -95,6 +95,9 @@ pub fn run() -> i32 {
             // token from the factory and talks to the poller itself) in a real loop; after the insertion and after each
             // operation, the sub-ids under which its leaves sit in the poller
             "composite" => composite(w[1], w.get(2).copied().unwrap_or("")),
+            // dupreg ping|gen: a Dispatcher that is registered is registered a second time (the poller refuses the fd):
+            // the call fails, takes no slot, and the first registration keeps working
+            "dupreg" => dupreg(w[1]),
             _ => "bad-op".to_string(),
         };
         writeln!(out, "{}", res).unwrap();
@@ -402,4 +405,67 @@ fn composite(leaves: &str, ops: &str) -> String {
         }
     }
     format!("{} own={} ok={} poked={} fired={}", out.join(";"), own, ok, poked, fired)
+}
+
+fn dupreg(kind: &str) -> String {
+    use calloop::generic::Generic;
+    use calloop::ping::make_ping;
+    use calloop::{Dispatcher, EventLoop, Interest, Mode, PostAction};
+    use std::cell::Cell;
+    use std::io::Write as _;
+    use std::os::unix::net::UnixStream;
+    use std::rc::Rc;
+    use std::time::Duration;
+    let mut el: EventLoop<'static, ()> = EventLoop::try_new().unwrap();
+    let h = el.handle();
+    let fired = Rc::new(Cell::new(0u32));
+    let f = fired.clone();
+    let before;
+    let second_err;
+    let mut poke: Box<dyn FnMut()>;
+    let _keep: Box<dyn std::any::Any>;
+    if kind == "ping" {
+        let (ping, src) = make_ping().unwrap();
+        let disp = Dispatcher::new(src, move |_, _, _: &mut ()| f.set(f.get() + 1));
+        h.register_dispatcher(disp.clone()).unwrap();
+        before = h.verif_stats();
+        second_err = h.register_dispatcher(disp.clone()).is_err();
+        poke = Box::new(move || ping.ping());
+        _keep = Box::new(disp);
+    } else {
+        let (a, mut b) = UnixStream::pair().unwrap();
+        a.set_nonblocking(true).unwrap();
+        let disp = Dispatcher::new(Generic::new(a, Interest::READ, Mode::Level), move |_, s, _: &mut ()| {
+            use std::io::Read;
+            let mut buf = [0u8; 16];
+            let _ = unsafe { s.get_mut() }.read(&mut buf);
+            f.set(f.get() + 1);
+            Ok(PostAction::Continue)
+        });
+        h.register_dispatcher(disp.clone()).unwrap();
+        before = h.verif_stats();
+        second_err = h.register_dispatcher(disp.clone()).is_err();
+        poke = Box::new(move || {
+            b.write_all(b"x").unwrap();
+        });
+        _keep = Box::new(disp);
+    }
+    let after = h.verif_stats();
+    let mut rounds_ok = 0;
+    for _ in 0..3 {
+        let was = fired.get();
+        poke();
+        el.dispatch(Some(Duration::from_millis(50)), &mut ()).unwrap();
+        if fired.get() == was + 1 {
+            rounds_ok += 1;
+        }
+    }
+    format!(
+        "dupreg {} second={} occupied={}->{} rounds={}/3",
+        kind,
+        if second_err { "err" } else { "ok" },
+        before.occupied,
+        after.occupied,
+        rounds_ok
+    )
 }
